@@ -191,10 +191,13 @@ def frameViolations (m : List (String × PEntry)) (before after : Obj) : List St
     if q == "version" || (keyed q m).length != 0 then none
     else if optBeq (get q after) (get q before) then none else some s!"frame:{q}-changed"
 
-def postShape (m : List (String × PEntry)) (before after : Json) : List String :=
+def postShape (top : Bool) (m : List (String × PEntry)) (before after : Json) : List String :=
   match before, after with
   | .obj b, .obj a =>
-    (m.flatMap fun p => entryViolations m b a p.1 p.2) ++ frameViolations m b a
+    -- at the top level the `version` key belongs to `convert_dict`'s bookkeeping: entries keyed by it are not
+    -- judged (but still count as interfering writers for the other clauses)
+    (m.flatMap fun p => if top && p.1 == "version" then [] else entryViolations m b a p.1 p.2)
+      ++ frameViolations m b a
   | .obj _, _ => ["result-not-a-dict"]
   | _, _ => []
 
@@ -204,7 +207,7 @@ def Entry.toPost : Entry → PEntry
   | .deleted => .deleted
   | .move p => .move p
   | .fn g a => .fn g a
-  | .sub m => .sub (postShape (postMap m))
+  | .sub m => .sub (postShape false (postMap m))
 termination_by structural x => x
 def postMap : List (String × Entry) → List (String × PEntry)
   | [] => []
@@ -213,10 +216,11 @@ termination_by structural x => x
 end
 
 /-- clauses of the documented single-step contract violated by `after` = (`before` converted with `m`) -/
-def stepViolations (m : Mapping) (before after : Json) : List String := postShape (postMap m) before after
+def stepViolations (m : Mapping) (before after : Json) : List String :=
+  postShape false (postMap m) before after
 
-/-- at the top level the `version` key belongs to `convert_dict`'s bookkeeping: entries for it are not judged -/
+/-- the same for one step of `convert_dict` (top level: `version` is bumped by the caller) -/
 def stepViolationsTop (m : Mapping) (before after : Json) : List String :=
-  stepViolations (m.filter fun p => p.1 != "version") before after
+  postShape true (postMap m) before after
 
 end Typedpy.Convert
